@@ -77,6 +77,10 @@ def eigh(x, **kw):
   v = T.opaque("eigh_v", x.shape, x.dtype)
   w.tags["eigh_of"] = x
   v.tags["eigh_of"] = x
+  nb = len(x.shape) - 2
+  dd = cur().ghost.setdefault("dep_derived", {})
+  dd[w.tags["f"].name()] = (x, nb)
+  dd[v.tags["f"].name()] = (x, nb)
   cur().axioms_used.add("eigh: eigenvalues ascending, real; batched over leading axes")
   cur().ghost["last_eigh"] = (w, v)
   return w, v
@@ -93,6 +97,7 @@ def svd(x, full_matrices=True, compute_uv=True, **kw):
   vt = T.opaque("svd_vt", x.shape[:-2] + (k, n), x.dtype)
   for t_ in (u, s, vt):
     t_.tags["svd_of"] = x
+    cur().ghost.setdefault("dep_derived", {})[t_.tags["f"].name()] = (x, len(x.shape) - 2)
   cur().axioms_used.add("svd: singular values descending and >= 0")
   cur().ghost["last_svd"] = (u, s, vt)
   cur().ghost.setdefault("svds", []).append((x, u, s, vt))
